@@ -11,6 +11,7 @@ pub mod mmap;
 pub mod rng;
 pub mod sched;
 mod sync_mutex;
+pub use sync_mutex::release_deferred;
 
 /// Scheduled replacements for `std::sync` used by the H3 hook.
 pub mod sync {
@@ -37,9 +38,10 @@ pub struct SimAbort;
 /// behaviour executes.
 pub struct MonitorStop(pub String);
 
-/// A labelled scheduling point: the simulated thread may be descheduled here.
-/// Also the place where an armed "abort this run" fault fires.
-pub fn sched_point(label: &'static str) {
+/// A labelled fault point: the place where an armed "abort this run" fault
+/// fires.  Does not yield.
+pub fn fault_point(label: &'static str) {
+    sync_mutex::release_deferred();
     let fire = ctx::with(|c| {
         c.stats.hook_events += 1;
         *c.stats.points.entry(label).or_insert(0) += 1;
@@ -58,6 +60,12 @@ pub fn sched_point(label: &'static str) {
     if fire && !std::thread::panicking() {
         std::panic::resume_unwind(Box::new(SimAbort));
     }
+}
+
+/// A labelled scheduling point: the simulated thread may be descheduled here
+/// (also a fault point).
+pub fn sched_point(label: &'static str) {
+    fault_point(label);
     if ctx::in_sim() && !std::thread::panicking() {
         // sleep(0) is a plain switch point (yield_now would mark the task as
         // "yielding", which priority schedulers treat as a request to be
